@@ -69,10 +69,11 @@ pub(crate) fn scan_constant_dimen<S: TexlangState>(
         Value::Other(',' | '.') => (0, scan_decimal_fraction(input)?),
         _ => {
             input.back(first_token);
-            let (_, i, radix) = super::integer::parse_integer(input)?;
+            let (_, i, radix, ended_by_space) = super::integer::parse_integer(input)?;
             // We scan for a fractional part if the integer was an decimal constant
-            // and the next token is a period or comma.
-            let fractional_part = if radix == Some(10) {
+            // and the next token is a period or comma that directly follows the digits
+            // (after `1 ` TeX's current token is the space, so `1 .5pt` has no fraction).
+            let fractional_part = if radix == Some(10) && !ended_by_space {
                 match input.next()? {
                     Some(next) => match next.value() {
                         Value::Other(',' | '.') => scan_decimal_fraction(input)?,
